@@ -2389,4 +2389,48 @@ pub mod verif_hooks_global {
     pub fn set_meta_bits(start: Address, start_bit: u8, end: Address, end_bit: u8) {
         SideMetadataSpec::set_meta_bits(start, start_bit, end, end_bit)
     }
+    pub fn find_prev_non_zero_value_fast<T: MetadataValue>(
+        s: &SideMetadataSpec,
+        a: Address,
+        limit: usize,
+    ) -> Option<Address> {
+        s.find_prev_non_zero_value_fast::<T>(a, limit)
+    }
+    pub fn find_prev_non_zero_value_simple<T: MetadataValue>(
+        s: &SideMetadataSpec,
+        a: Address,
+        limit: usize,
+    ) -> Option<Address> {
+        s.find_prev_non_zero_value_simple::<T>(a, limit)
+    }
+    pub fn find_next_non_zero_value_fast<T: MetadataValue>(
+        s: &SideMetadataSpec,
+        a: Address,
+        limit: usize,
+    ) -> Option<Address> {
+        s.find_next_non_zero_value_fast::<T>(a, limit)
+    }
+    pub fn find_next_non_zero_value_simple<T: MetadataValue>(
+        s: &SideMetadataSpec,
+        a: Address,
+        limit: usize,
+    ) -> Option<Address> {
+        s.find_next_non_zero_value_simple::<T>(a, limit)
+    }
+    pub fn scan_non_zero_values_fast(
+        s: &SideMetadataSpec,
+        start: Address,
+        end: Address,
+        visit: &mut impl FnMut(Address),
+    ) {
+        s.scan_non_zero_values_fast(start, end, visit)
+    }
+    pub fn scan_non_zero_values_simple<T: MetadataValue>(
+        s: &SideMetadataSpec,
+        start: Address,
+        end: Address,
+        visit: &mut impl FnMut(Address),
+    ) {
+        s.scan_non_zero_values_simple::<T>(start, end, visit)
+    }
 }
